@@ -11,7 +11,7 @@ import Aiorpcx.C18.Model
     lower   : `str.lower()` (the `PyLower` parameter) is ASCII lower-casing unless the line gives
               its value on a string as a token `L:<string>=<lowered string>` after the `|`
 
-    ops (see `handle`): proto host classify port split ip4 show4 mkaddr addr svc mksvc addrd svcd
+    ops (see `handle`): proto host classify port split ip4 show4 mkaddr addr svc mksvc mksvco addrd svcd
     eqaddr eqsvc rx sweep; `proto-pinned`, `host-pinned`, `split-pinned` run the pinned-tree
     variants. -/
 open Aiorpcx Aiorpcx.C18
@@ -221,6 +221,12 @@ def handleOp (toks : List String) (t : Table) (lt : Table) : String :=
     | some p, some a => (match mkService L cfg p (.val a) with
       | .ok s => roundTripSvc L cfg s | .error e => showExc e)
     | _, _ => "bad-op"
+  | ["mksvco", p, h, port] => match parseVal p, parseVal h, parseVal port with
+    | some p, some h, some port => (match mkNetAddress L cfg h port with
+      | .error e => "addr-" ++ showExc e
+      | .ok a => (match mkService L cfg p (.obj a) with
+        | .ok s => roundTripSvc L cfg s | .error e => showExc e))
+    | _, _, _ => "bad-op"
   | ["addrd", v, dh, dp] => match parseVal v, parseVal dh, parseVal dp with
     | some v, some dh, some dp => showRes showAddr (NetAddr.fromStringD L cfg (some (dh, dp)) v)
     | _, _, _ => "bad-op"
